@@ -398,8 +398,12 @@ func Choose(n int) int {
 		return 0
 	}
 	t := CurrentThread()
-	if t == nil || s.killing.Load() {
+	if t == nil {
 		return 0
+	}
+	if s.killing.Load() {
+		// teardown: a thread about to block in a select would wait for timers nobody waits for any more
+		runtime.Goexit()
 	}
 	site := callSite()
 	s.mu.Lock()
